@@ -108,6 +108,8 @@ static long n_extdec = 0, n_extinc = 0;
  * pipe at that report and are still there when the loop blocks again will not be reported a second time */
 static long n_pipe_writes = 0, edge_consumed_writes = -1;
 static volatile int loop_finished = 0;
+/* completions the watchdog treats as progress: tasks that ran to their end, completion-log lines and plateau measurements */
+static volatile long n_finished = 0, n_logs = 0;
 static int watchdog_secs = 120;
 
 #define IS_MAIN() (main_vm != NULL && &janet_vm == main_vm)
@@ -400,6 +402,7 @@ static JanetSignal c20_continue(JanetFiber *f, Janet v, Janet *o, JanetSignal si
         out("E run f%ld\n", fid_of(f));
     }
     JanetSignal s = janet_continue_signal(f, v, o, sig);
+    if (IS_MAIN() && !(s == JANET_SIGNAL_EVENT || s == JANET_SIGNAL_YIELD || s == JANET_SIGNAL_INTERRUPT)) n_finished++;
     if (IS_MAIN() && opt_events) {
         int susp = (s == JANET_SIGNAL_EVENT || s == JANET_SIGNAL_YIELD || s == JANET_SIGNAL_INTERRUPT);
         observe_signals();
@@ -654,6 +657,7 @@ static Janet cfun_log(int32_t argc, Janet *argv) {
     janet_fixarity(argc, 1);
     const uint8_t *s = janet_to_string(argv[0]);
     pthread_mutex_lock(&c20_mu);
+    n_logs++;
     out("LOG %ld %s\n", c20_step, (const char *) s);
     pthread_mutex_unlock(&c20_mu);
     return janet_wrap_nil();
@@ -669,6 +673,7 @@ static Janet cfun_measure(int32_t argc, Janet *argv) {
     count_children(&nchild, &nz);
     Truth t = ground_truth();
     pthread_mutex_lock(&c20_mu);
+    n_logs++;
     out("MEASURE %s fds=%ld children=%ld zombies=%ld roots=%zu blocks=%zu lc=%d tq=%zu rq=%d threads=%ld fibers=%ld scratch=%zu shared=%d\n",
         (const char *) s, count_fds(), nchild, nz, janet_vm.root_count, janet_vm.block_count,
         (int) janet_atomic_load(&janet_vm.listener_count), janet_vm.tq_count, (int) janet_q_count(&janet_vm.spawn),
@@ -749,10 +754,18 @@ static void *watchdog(void *arg) {
     sigset_t all;
     sigfillset(&all);
     pthread_sigmask(SIG_BLOCK, &all, NULL);
+    /* The countdown restarts whenever a task ran to its end, an event was posted / delivered, a helper thread started / finished
+     * or a completion was logged: a slow run on a loaded machine is not a hang.  Only `watchdog_secs` without any of these is. */
+    long last = -1;
     for (int i = 0; i < watchdog_secs * 10; i++) {
         struct timespec ts = {0, 100000000};
         nanosleep(&ts, NULL);
         if (loop_finished) return NULL;
+        long now = n_finished + n_logs + n_posted + n_delivered + n_delivered_null + n_tstarted + n_twritten;
+        if (now != last) {
+            last = now;
+            i = 0;
+        }
     }
     /* backstop: the loop did not return.  Report the state the main thread is stuck in. */
     pthread_mutex_lock(&c20_mu);
